@@ -156,6 +156,41 @@ def recurrent_spike_paths(refrac_t):
     return None
 
 
+def recurrent_kwargs_case():
+    """keyword arguments given to RecurrentSerial for individual components reach exactly that component (recorded by
+    thin subclasses of the real LIF / LinearDense)"""
+    seen = {}
+
+    class RLIF(LIF):
+        def forward(self, inputs, **kw):
+            seen[self._tag] = dict(kw)
+            return super().forward(inputs, **{k: v for k, v in kw.items() if k in ("refrac_lock",)})
+
+    class RDense(LinearDense):
+        def forward(self, *inputs, **kw):
+            seen[self._tag] = dict(kw)
+            return super().forward(*inputs)
+
+    def mkc(i, tag):
+        c_ = RDense((i,), (2,), 1.0, synapse=DeltaCurrent.partialconstructor(20.0), batch_size=2)
+        c_._tag = tag
+        return c_
+
+    def mkn(tag):
+        n_ = RLIF((2,), 1.0, rest_v=-60.0, reset_v=-65.0, thresh_v=-55.0, refrac_t=2.0, time_constant=10.0, resistance=1.0, batch_size=2)
+        n_._tag = tag
+        return n_
+
+    lay = RecurrentSerial(mkc(3, "ff"), mkc(2, "lat"), mkc(2, "fb"), mkn("nff"), mkn("nfb"))
+    want = {"ff": {"a": 1}, "lat": {"b": 2}, "fb": {"c": 3}, "nff": {"refrac_lock": True}, "nfb": {"refrac_lock": False, "tag": 7}}
+    for x in inputs(2):
+        seen.clear()
+        lay(x, feedfwd_connection_kwargs=want["ff"], lateral_connection_kwargs=want["lat"], feedback_connection_kwargs=want["fb"], feedfwd_neuron_kwargs=want["nff"], feedback_neuron_kwargs=want["nfb"])
+        if seen != want:
+            return {"what": "C17/recurrent/keyword_arguments_do_not_reach_their_component", "input": dict(given={k: str(v) for k, v in want.items()}), "expected": {k: str(v) for k, v in want.items()}, "actual": {k: str(v) for k, v in seen.items()}}
+    return None
+
+
 def sweep(tier="quick", seed=0, unsupported=()):
     failures, cases = [], 0
 
@@ -174,6 +209,8 @@ def sweep(tier="quick", seed=0, unsupported=()):
     for k in range(0, 8, 2 if tier == "quick" else 1):
         cases += 1
         add(recurrent_case(k))
+    cases += 1
+    add(recurrent_kwargs_case())
     for rt in (0.0, 1.0, 3.0):
         cases += 1
         f = recurrent_spike_paths(rt)
